@@ -106,7 +106,8 @@ def weight_text(w, decimals=3) -> str:
 
 
 def rule_text(r, style=0) -> str:
-    s = f"if {ant_text(r['ant'], style)} then {cons_text(r['cons'])}"
+    # `ant_text` may be supplied (the tokens printed by the TLA+ printer RuleSyntax.Show); otherwise printed here
+    s = f"if {r.get('ant_text') or ant_text(r['ant'], style)} then {cons_text(r['cons'])}"
     if r["weight"] != ONE:
         s += f" with {weight_text(r['weight'])}"
     return s
